@@ -203,6 +203,11 @@ func hasSharingOrCycle(root *zoo.FNode) bool {
 		for _, x := range n.Mp {
 			walk(x)
 		}
+		if n.PLs != nil {
+			for _, x := range *n.PLs {
+				walk(x)
+			}
+		}
 	}
 	walk(root)
 	for _, d := range indeg {
@@ -306,6 +311,15 @@ func TestC04(t *testing.T) {
 				nd.Ls = make([]*zoo.FNode, k)
 				for x := range nd.Ls {
 					nd.Ls[x] = pick("lsElem")
+				}
+			}
+			if i > 0 && rapid.IntRange(0, 5).Draw(rt, "plsKind") == 0 {
+				// a pointer to (a prefix of) another node's slice
+				j := rapid.IntRange(0, i-1).Draw(rt, "plsOf")
+				if src := nodes[j].Ls; len(src) > 0 {
+					sl := src[:rapid.IntRange(1, len(src)).Draw(rt, "plsLen")]
+					nd.PLs = &sl
+					fmt.Fprintf(&sb, "n%d.PLs->n%d.Ls[:%d] ", i, j, len(sl))
 				}
 			}
 			switch rapid.IntRange(0, 5).Draw(rt, "mpKind") {
